@@ -17,3 +17,17 @@ package cert
 //@   ensures [view-bound] result == nil && !isGenesisHash(qc.hash) ==> c.blockchain.blocks[qc.hash].view == qc.view
 //@   ensures [inv] blockchain.binv(c.blockchain) && blockchain.bmaps(c.blockchain)
 //@   modifies c.blockchain.blocks[*], c.blockchain.blockAtHeight[*], c.blockchain.pendingFetch[*], c.blockchain.eventLoop.handlers[*], alloc
+
+// Accepted timeout certificates: a quorum of participants, each with a valid signature over
+// exactly the timed-out view the certificate claims.
+//@ func (*Authority).VerifyTimeoutCert property C02
+//@   requires awf(c)
+//@   ensures [quorum] result == nil && tc.view != 0 ==> tc.signature != nil && hotstuff.setlen(hotstuff.parts(tc.signature)) >= quorum(c)
+//@   ensures [content] result == nil && tc.view != 0 ==> (forall id hotstuff.ID :: hotstuff.setmem(hotstuff.parts(tc.signature), id) ==> crypto.sigvalid(c.Base, tc.signature, id, hotstuff.viewcontent(tc.view)))
+//@   modifies alloc
+
+//@ func (*Authority).VerifyPartialCert property C02
+//@   requires awf(c)
+//@   ensures [content] result == nil ==> cert.signature != nil && has(c.blockchain.blocks, cert.blockHash) && (forall id hotstuff.ID :: hotstuff.setmem(hotstuff.parts(cert.signature), id) ==> crypto.sigvalid(c.Base, cert.signature, id, hotstuff.blockcontent(c.blockchain.blocks[cert.blockHash])))
+//@   ensures [inv] blockchain.binv(c.blockchain) && blockchain.bmaps(c.blockchain)
+//@   modifies c.blockchain.blocks[*], c.blockchain.blockAtHeight[*], c.blockchain.pendingFetch[*], c.blockchain.eventLoop.handlers[*], alloc
